@@ -1,1 +1,2 @@
 import PV.Props.C15
+import PV.Props.C05
